@@ -151,6 +151,10 @@ fn check_vector(o: &mut CaseOut, pred: &[Option<usize>], starts: &[usize], targe
     o.check(tree.pred == pred, "tree-construction", || format!("{:?} vs {pred:?}", tree.pred));
     if how % 64 == 3 {
         reentrant(o, pred);
+        if crate::ctx::stop_requested() {
+            // a search is blocked inside the code under test: do not call it again from this thread
+            return;
+        }
     }
     for &s in starts {
         for &t in targets {
